@@ -71,7 +71,13 @@ def gen_case(seed):
             replies.append({"pre": pre, "final": r})
         else:
             replies.append({"final": r})
-    return {"mode": "echo", "seed": seed, "encoding": enc, "replies": replies}
+    # the data-transfer block size has no business in reply framing: vary it (and, rarely, send
+    # a line longer than the default 8192) so that framing never silently depends on it
+    b = rnd.choice([8192, 8192, 8192, 1, 5, 16, 64, 300])
+    if rnd.random() < 0.04:
+        item = rnd.choice(replies)["final"]
+        item[1][rnd.randrange(len(item[1]))] = "".join(rnd.choice(ALPHA_ASCII) for _ in range(rnd.choice([8185, 8188, 8189, 8192, 9000])))
+    return {"mode": "echo", "seed": seed, "encoding": enc, "replies": replies, "B": b}
 
 
 class EchoServer(aioftp.Server):
@@ -109,13 +115,17 @@ def run_echo_case(case):
     world = scenario.setup_world(sc, max_steps=2_000_000)
     with world:
         scenario.apply_net(world.net, net)
-        server = EchoServer(case["replies"], [aioftp.User()], path_io_factory=aioftp.MemoryPathIO, encoding=case["encoding"])
+        server = EchoServer(case["replies"], [aioftp.User()], path_io_factory=aioftp.MemoryPathIO, encoding=case["encoding"], block_size=case.get("B", 8192))
         world.server = server
         client = aioftp.Client(path_io_factory=aioftp.MemoryPathIO, encoding=case["encoding"])
 
         async def main():
             await server.start("127.0.0.1", 2121)
-            await client.connect("127.0.0.1", 2121)
+            try:
+                await client.connect("127.0.0.1", 2121)
+            except aioftp.StatusCodeError as e:
+                viol.append({"clause": "reply-misread", "subject": "greeting", "detail": f"the server's greeting (block_size {case.get('B', 8192)}): client raised StatusCodeError expected {e.expected_codes} received {e.received_codes} info {e.info!r}"[:500]})
+                return
             for i, item in enumerate(case["replies"]):
                 code, lines, lst = item["final"]
                 subject = ("list" if lst else "plain") + ("+pre" if "pre" in item else "")
@@ -300,14 +310,18 @@ def run_stall_case(case):
     world = scenario.setup_world(sc, max_steps=3_000_000)
     with world:
         scenario.apply_net(world.net, net)
-        server = EchoServer(case["replies"], [aioftp.User()], path_io_factory=aioftp.MemoryPathIO, encoding=case["encoding"], socket_timeout=case["socket_timeout"])
+        server = EchoServer(case["replies"], [aioftp.User()], path_io_factory=aioftp.MemoryPathIO, encoding=case["encoding"], socket_timeout=case["socket_timeout"], block_size=case.get("B", 8192))
         world.server = server
         client = aioftp.Client(path_io_factory=aioftp.MemoryPathIO, encoding=case["encoding"])
         K = len(case["replies"])
 
         async def main():
             await server.start("127.0.0.1", 2121)
-            await client.connect("127.0.0.1", 2121)
+            try:
+                await client.connect("127.0.0.1", 2121)
+            except aioftp.StatusCodeError as e:
+                viol.append({"clause": "reply-misread", "subject": "greeting", "detail": f"the server's greeting: client raised {e!r}"[:400]})
+                return
             client.stream.reader._limit = case["reader_limit"]  # the peer's receive buffer is small
             await client.stream.write("".join(f"ECHO {i}\r\n" for i in range(K)).encode())
             await asyncio.sleep(case["pause"])
